@@ -140,7 +140,7 @@ Qed.
 Definition hex_check (c : N) : bool :=
   match hex_value c with
   | Some v => decode_hex c =? v
-  | None => true
+  | None => 0x0F <? decode_hex c
   end.
 Lemma hex_sweep : all_bytes hex_check = true.
 Proof. vm_cast_no_check (eq_refl true). Qed.
@@ -158,3 +158,9 @@ Proof.
   injection E as <-. apply andb_prop in C as [A1 A2]. apply N.leb_le in A1, A2. lia.
 Qed.
 
+
+Lemma decode_hex_nondigit : forall c, c < 256 -> hex_value c = None -> 0x0F < decode_hex c.
+Proof.
+  intros c H E. pose proof (all_bytes_spec _ hex_sweep c H) as S. unfold hex_check in S.
+  rewrite E in S. apply N.ltb_lt in S. exact S.
+Qed.
